@@ -96,7 +96,7 @@ RECURSIVE ProdTo(_, _)
 ProdTo(s, j) == IF j = 0 THEN 1 ELSE ProdTo(s, j - 1) * s[j]
 Prod(s) == ProdTo(s, Len(s))
 RowMajor(sh) == [d \in 1..Len(sh) |-> Prod(SubSeq(sh, d + 1, Len(sh)))]
-CfgDesc(c) == [al |-> 0 - c, off |-> 0, st |-> << >>, sh |-> << >>]
+CfgDesc(c) == [al |-> 0 - c, off |-> 0, st |-> << >>, sh |-> << >>, dw |-> FALSE]
 
 \* ------------------------------------------------- expression evaluation
 RECURSIVE Eval(_, _, _)
@@ -143,7 +143,11 @@ Chk(e, F, hp) ==
               ELSE IF ~hp[d.al].live THEN "uaf"
               ELSE IF \E j \in 1..Len(e.idx) :
                         LET v == Eval(e.idx[j], F, hp) IN v < 0 \/ v >= d.sh[j]
-                   THEN "oob" ELSE "ok"
+                   THEN \* outside the declared extent; "oobwin": of a derived window, yet inside its source allocation
+                        LET ix == [j \in 1..Len(e.idx) |-> Eval(e.idx[j], F, hp)]
+                            o == d.off + DotOff(ix, d.st, Len(ix))
+                        IN IF d.dw /\ o >= 0 /\ o < Len(hp[d.al].cells) THEN "oobwin" ELSE "oob"
+                   ELSE "ok"
     [] e.k = "stride" -> IF e.n \in DOMAIN F.bufs
                          THEN (IF e.dim < Len(F.bufs[e.n].st) THEN "ok" ELSE "rank")
                          ELSE "unbound"
@@ -198,7 +202,7 @@ ChkWin(e, F, hp) ==
                          THEN LET v == Eval(e.acc[j].pt, F, hp) IN v < 0 \/ v >= d.sh[j]
                          ELSE LET lo == Eval(e.acc[j].lo, F, hp)
                                   hi == Eval(e.acc[j].hi, F, hp)
-                              IN lo < 0 \/ hi > d.sh[j] \/ hi < lo
+                              IN lo < 0 \/ hi > d.sh[j]   \* (an empty or negative extent accesses nothing)
                     THEN "oob" ELSE "ok"
 WinDesc(e, F, hp) ==
   LET d == F.bufs[e.n]
@@ -208,7 +212,8 @@ WinDesc(e, F, hp) ==
   IN [al |-> d.al,
       off |-> d.off + DotOff(los, d.st, Len(los)),
       st |-> [q \in 1..Len(ivs) |-> d.st[ivs[q]]],
-      sh |-> [q \in 1..Len(ivs) |-> Eval(e.acc[ivs[q]].hi, F, hp) - los[ivs[q]]]]
+      sh |-> [q \in 1..Len(ivs) |-> Eval(e.acc[ivs[q]].hi, F, hp) - los[ivs[q]]],
+      dw |-> TRUE]
 
 \* ------------------------------------------------------------------ frames
 NF == Len(frames)
@@ -235,8 +240,8 @@ EntryBufs(pr, side, en) ==
         LET j == CHOOSE j \in idxs : pr.args[j].n = n
             sh == [d \in 1..Len(pr.args[j].shape) |-> Eval(pr.args[j].shape[d], F0, << >>)]
         IN IF pr.args[j].win
-           THEN [al |-> j, off |-> side.bufs[j].off, st |-> side.bufs[j].strides, sh |-> sh]
-           ELSE [al |-> j, off |-> 0, st |-> RowMajor(sh), sh |-> sh]]
+           THEN [al |-> j, off |-> side.bufs[j].off, st |-> side.bufs[j].strides, sh |-> sh, dw |-> FALSE]
+           ELSE [al |-> j, off |-> 0, st |-> RowMajor(sh), sh |-> sh, dw |-> FALSE]]
 EntryHeap(pr, side) ==
   LET idxs == {j \in 1..Len(pr.args) : IsBuf(pr.args[j])}
   IN [a \in idxs \cup {0 - c : c \in 1..NCfg} |->
@@ -354,7 +359,7 @@ AllocS ==
                   /\ LET k == Len(F.stk)
                          ns == [F.stk EXCEPT ![k].i = @ + 1, ![k].als = Append(@, <<s.n, nal>>)]
                      IN frames' = SetTop([F EXCEPT
-                        !.bufs = (s.n :> [al |-> nal, off |-> 0, st |-> RowMajor(sh), sh |-> sh]) @@ @,
+                        !.bufs = (s.n :> [al |-> nal, off |-> 0, st |-> RowMajor(sh), sh |-> sh, dw |-> FALSE]) @@ @,
                         !.stk = ns])
                   /\ TraceStep(ev)
                   /\ UNCHANGED <<trap, par>>
@@ -481,7 +486,7 @@ ArgDesc(a, F, hp) ==
                      ELSE LET d == F.bufs[a.n]
                               ix == [j \in 1..Len(a.idx) |-> Eval(a.idx[j], F, hp)]
                           IN [al |-> d.al, off |-> d.off + DotOff(ix, d.st, Len(ix)),
-                              st |-> << >>, sh |-> << >>]
+                              st |-> << >>, sh |-> << >>, dw |-> TRUE]
     [] a.k = "win" -> WinDesc(a, F, hp)
     [] a.k = "rcfg" -> CfgDesc(a.c)
 ChkArg(a, isbuf, F, hp) ==
